@@ -35,12 +35,12 @@ def main():
     titles = {p["id"]: p["title"] for p in props}
     items = []
     for d in sorted(os.listdir(SRC)):
-        m = re.fullmatch(r"(C\d\d)([abcdefg])", d)
+        m = re.fullmatch(r"(C\d\d)([abcdefgh])", d)
         if not m:
             continue
         for x in "AB":
             # second-round changes (directories CNNb) are filed as C and D, third-round ones (CNNc) as E and F, fourth-round ones (CNNd) as G and H
-            sid = f"{m.group(1)}-{ {'a': {'A': 'A', 'B': 'B'}, 'b': {'A': 'C', 'B': 'D'}, 'c': {'A': 'E', 'B': 'F'}, 'd': {'A': 'G', 'B': 'H'}, 'e': {'A': 'I', 'B': 'J'}, 'f': {'A': 'K', 'B': 'L'}, 'g': {'A': 'M', 'B': 'N'}}[m.group(2)][x] }"
+            sid = f"{m.group(1)}-{ {'a': {'A': 'A', 'B': 'B'}, 'b': {'A': 'C', 'B': 'D'}, 'c': {'A': 'E', 'B': 'F'}, 'd': {'A': 'G', 'B': 'H'}, 'e': {'A': 'I', 'B': 'J'}, 'f': {'A': 'K', 'B': 'L'}, 'g': {'A': 'M', 'B': 'N'}, 'h': {'A': 'O', 'B': 'P'}}[m.group(2)][x] }"
             if todo and sid not in todo:
                 continue
             patch = f"{SRC}/{d}/patch{x}.ported.diff"
